@@ -24,9 +24,9 @@ from pyasn1.codec.der import decoder as der_dec
 PROPERTY = 'C08'
 LEVEL = 'fault_enumeration'
 SIGMA = bytes.fromhex('00 01 02 03 04 05 06 09 0A 0C 13 17 18 1E 1F 23 24 30 31 7F 80 81 82 84 A0 BF FF')
-RULE = ('(a) EVERY byte string of length <= L (L=3 quick, 4 thorough) over the 27-octet structural alphabet '
+RULE = ('(a) EVERY byte string of length <= L (L=3 quick, 4 thorough) over the 27-octet structural alphabet; (a2) under each of 12 primitive universal tags EVERY content string of length <= 3/4 over a 16-octet content alphabet, and REAL under every first content octet x 17 payloads; '
         'Sigma = %s; (b) the complete single-mutation neighbourhood (replace each octet by each sigma, delete, '
-        'insert sigma, truncate, rewrite first length octet to {00,7F,80,81,84FFFFFFFF}) of every seed encoding '
+        'insert sigma, truncate, rewrite first length octet to {00,7F,80,81,84FFFFFFFF,87FF..,88FF..,8901 00..,FE 01..}, empty the content of each constructed element) of every seed encoding '
         '(cover set, all forms, |e| <= 24 quick / 40 thorough); x decoders {BER,CER,DER} x {one-shot on bytes, '
         'streaming on an instrumented seekable stream} x guiding type in {none} + 8 specs (quick: none + the 4 '
         'most permissive for (a)). Non-trivial = input is not itself a valid complete encoding for the spec; '
@@ -177,11 +177,75 @@ def mutations(e):
             p += 1
         p += 1
     if p < n:
-        for rep in (b'\x00', b'\x7f', b'\x80', b'\x81', b'\x84\xff\xff\xff\xff'):
+        for rep in (b'\x00', b'\x7f', b'\x80', b'\x81', b'\x84\xff\xff\xff\xff', b'\x87' + b'\xff' * 7,
+                    b'\x88' + b'\xff' * 8, b'\x89\x01' + b'\x00' * 8, b'\xfe' + b'\x01' * 126):
             m = e[:p] + rep + e[p + 1:]
             if m not in seen:
                 seen.add(m)
                 yield 'length', m
+
+
+def hollow(e):
+    """every constructed element of the seed emptied (definite: length 0; indefinite: end-of-octets only)"""
+    try:
+        root = M.tlv_tree(e)
+    except M.ReadError:
+        return
+
+    def nodes(n):
+        yield n
+        for c in n.children or ():
+            yield from nodes(c)
+    for n in nodes(root):
+        if n.constructed and n.content:
+            ident = e[n.start:n.hdr_end - len(n.len_octets)]
+            if n.indef:
+                yield 'hollow', e[:n.start] + ident + b'\x80\x00\x00' + e[n.end:]
+            else:
+                # lengths of enclosing definite elements are NOT adjusted: that is a second kind of damage
+                yield 'hollow', e[:n.start] + ident + b'\x00' + e[n.end:]
+                inner_empty = rebuild(e, root, n)
+                if inner_empty is not None:
+                    yield 'hollow-consistent', inner_empty
+
+
+def rebuild(e, root, target):
+    """re-encode the tree with `target`'s content removed and all enclosing lengths consistent"""
+    def enc(n):
+        ident = e[n.start:n.hdr_end - len(n.len_octets)]
+        if n is target:
+            return ident + (b'\x80\x00\x00' if n.indef else b'\x00')
+        if n.children is None or not n.constructed:
+            return e[n.start:n.end]
+        body = b''.join(enc(c) for c in n.children)
+        if n.indef:
+            return ident + b'\x80' + body + b'\x00\x00'
+        return ident + M.length_octets(len(body)) + body
+    try:
+        return enc(root)
+    except M.ModelError:
+        return None
+
+
+CONTENT_ALPHABET = bytes.fromhex('00 01 7f 80 81 ff 2e 2b 2d 30 31 45 20 6e 61 2c')
+PRIMITIVE_TAGS = bytes.fromhex('01 02 03 05 06 09 0a 0c 13 17 18 1e')
+
+
+def primitive_contents(tier):
+    """every content string of length <= 3 (quick) / 4 over a content alphabet under every primitive
+    universal tag; REAL additionally under every possible first content octet with a few payloads"""
+    L = 3 if tier == 'quick' else 4
+    for t in PRIMITIVE_TAGS:
+        for n in range(0, L + 1):
+            for c in itertools.product(CONTENT_ALPHABET, repeat=n):
+                yield bytes([t, n]) + bytes(c)
+    payloads = [b'', b'\x00', b'\x01', b'\x00\x01', b'\x00\x01\x05', b'\x01\x00\x05', b'nan', b'inf', b'1', b'1E', b' 1',
+                b'1e400', b'+', b'.', b'-0', b'1.5E+2', b'\x02\x00\x00\x01']
+    for first in range(256):
+        for p in payloads:
+            body = bytes([first]) + p
+            yield bytes([9, len(body)]) + body
+            yield b'\x30' + bytes([len(body) + 2, 9, len(body)]) + body
 
 
 def spec_list(tier, part):
@@ -204,10 +268,17 @@ def shard(tier, i, n, seed):
             continue
         guarded(R, lambda: run_all(data, 'alphabet', None, specs_a, R, idx), {'data': data, 'origin': 'alphabet'}, {'alphabet'}, idx)
     R.extra['alphabet_strings'] += 0
+    # (a2) primitive contents
+    specs_p = [(nm, (B.to_spec(T) if T else None), T) for nm, T in SPECS if nm in ('none', 'int', 'bits', 'seqof-real', 'utf8', 'oid', 'any')]
+    for data in primitive_contents(tier):
+        idx += 1
+        if (idx + seed) % n != i:
+            continue
+        guarded(R, lambda: run_all(data, 'primitive', None, specs_p, R, idx), {'data': data, 'origin': 'primitive'}, {'primitive'}, idx)
     # (b) mutation neighbourhoods
     for name, form, T, e in seeds(tier):
         own = ('own:' + name, B.to_spec(T), T)
-        for kind, m in mutations(e):
+        for kind, m in itertools.chain(mutations(e), hollow(e)):
             idx += 1
             if (idx + seed) % n != i:
                 continue
